@@ -3,6 +3,7 @@ package main
 import (
 	"bytes"
 	"fmt"
+	"strings"
 
 	exsrv "github.com/cybergarage/go-redis/examples/go-redisd/server"
 	"github.com/cybergarage/go-redis/redis"
@@ -359,6 +360,46 @@ func c04run(idx int) run.Result {
 			}
 		}
 	}
+	// a slow reader and a second client: one reply write of this connection is held half-way (as a write into a
+	// full socket buffer is) while another connection of the same server gets replies of its own; when the write
+	// goes on, the connection must still receive exactly the bytes of the undisturbed run
+	if nw := len(pr.Snap.Writes); nw > 0 && c.Kind != "example-store" {
+		rs := rng.New(c04.seed, rng.Str("C04pause"), uint64(idx))
+		at := 1 + rs.Intn(nw)
+		keep := rs.Intn(pr.Snap.Writes[at-1].N + 1)
+		srv := mkServer()
+		ca := sconn.New(sconn.Script{Chunks: chunkAt(stream, ends), End: sconn.EOF, PauseWriteAt: at, PauseWriteKeep: keep})
+		waitA := double.Start(srv, ca, nil)
+		parked := ca.WaitWritePaused(serveWait)
+		var other []resp.Value
+		for k := 0; k < 3; k++ {
+			other = append(other, resp.Cmd("ECHO", strings.Repeat(string(rune('A'+k)), 1+rs.Intn(3*pr.Snap.Writes[at-1].N+8))))
+		}
+		ostream, oends := encodeReqs(other)
+		prB := runPipe(srv, other, chunkAt(ostream, oends), sconn.Script{End: sconn.EOF})
+		ca.ResumeWrite()
+		ra := waitA(serveWait)
+		switch {
+		case prB.TimedOut || ra.TimedOut:
+			res.Inconclusive = "two-connection run did not complete"
+			return res
+		case parked:
+			res.Count("paused_write_runs", 1)
+			for i, f := range prB.Frames {
+				if i < len(other) && !resp.Equal(f, other[i].A[1]) {
+					res.Violate("C04:"+c.Kind+":second-connection-disturbed", "everything the server writes on a connection is a concatenation of complete, valid RESP values (its own replies)", fmt.Sprintf("the second connection's ECHO %d answered %s", i, clipS(f.String(), 100)), desc(nil))
+					return res
+				}
+			}
+			if !bytes.Equal(ra.Snap.Out, out) {
+				_, _, rest4, bad4, off4 := resp.DecodeAll(ra.Snap.Out)
+				res.Violate("C04:"+c.Kind+":reply-changed-while-being-written", "everything the server writes on a connection is a concatenation of complete, valid RESP values, also when the reader is slow and other connections are served meanwhile",
+					fmt.Sprintf("write %d was held after %d bytes while another connection received 3 replies; the connection then received other bytes than in the undisturbed run (strict decoder: rest=%d bad=%q at %d): %s", at, keep, rest4, bad4, off4, hexClip(ra.Snap.Out, 200)),
+					desc(map[string]any{"pause_write": at, "pause_keep": keep, "out_hex": hexClip(ra.Snap.Out, 600), "undisturbed_out_hex": hexClip(out, 600)}))
+				return res
+			}
+		}
+	}
 	if idx%151 == 0 {
 		res.Sample = desc(map[string]any{"out_hex": hexClip(out, 200)})
 	}
@@ -415,7 +456,7 @@ func init() {
 	run.Register(&run.Prop{
 		ID: "C04", Level: "exploration",
 		Rule: func(tier string) string {
-			return "case = one scripted connection, requests delivered one per chunk, in three rotating kinds: (toplevel) 1..5 client values of every RESP type at top level - status, error, integer, bulk, null bulk, empty/null array, null/non-bulk/nested command names - and command arrays whose name and arguments carry CR, LF, CRLF+forged frames and arbitrary bytes; (handler-result) a command whose handler call returns each message type with hostile payload, nil message, errors with hostile text, message+error, arrays with status/error elements, nested arrays, an array message built without an array, a message whose type is none of the five (alone and inside an array); (example-store) hostile values written to the bundled example store and read back with every read command. Oracle: the whole output decodes under an independent strict RESP2 decoder with nothing left over; the bytes written between two consecutive would-block reads are exactly one frame (or none and the connection is closed); a trailing ECHO is answered exactly; whole-stream delivery gives byte-identical output; in a further run the reader stalls inside a seeded reply write for longer than any write deadline and then reads on (virtual time: the scripted transport cuts that write short iff the server armed a deadline) and what the client reads must still be complete frames. distinct = hash of request stream + handler script; all cases are non-trivial (hostile bytes or non-command values)"
+			return "case = one scripted connection, requests delivered one per chunk, in three rotating kinds: (toplevel) 1..5 client values of every RESP type at top level - status, error, integer, bulk, null bulk, empty/null array, null/non-bulk/nested command names - and command arrays whose name and arguments carry CR, LF, CRLF+forged frames and arbitrary bytes; (handler-result) a command whose handler call returns each message type with hostile payload, nil message, errors with hostile text, message+error, arrays with status/error elements, nested arrays, an array message built without an array, a message whose type is none of the five (alone and inside an array); (example-store) hostile values written to the bundled example store and read back with every read command. Oracle: the whole output decodes under an independent strict RESP2 decoder with nothing left over; the bytes written between two consecutive would-block reads are exactly one frame (or none and the connection is closed); a trailing ECHO is answered exactly; whole-stream delivery gives byte-identical output; in a further run the reader stalls inside a seeded reply write for longer than any write deadline and then reads on (virtual time: the scripted transport cuts that write short iff the server armed a deadline) and what the client reads must still be complete frames; in yet another run a seeded reply write is held half-way (slow reader; the transport keeps the server's slice and takes the rest of it only when resumed) while a second connection of the same server gets three ECHO replies, and the first connection must still receive exactly the bytes of the undisturbed run. distinct = hash of request stream + handler script; all cases are non-trivial (hostile bytes or non-command values)"
 		},
 		Assumptions: []string{"integer frames are judged on framing only (a handler may put any CR/LF-free text into an integer message)"},
 		Setup: func(tier string, seed uint64) int {
